@@ -24,6 +24,7 @@ func init() {
 			{"SCO-BLOCK", 6, ruleScoBlock},
 			{"SCO-CHAIN", 6, ruleScoChain},
 			{"SCO-IMPORTSET", 2, ruleScoImportSet},
+			{"SCO-RHSFIRST", 3, ruleScoRhsFirst},
 		},
 	})
 }
@@ -777,5 +778,87 @@ func ruleScoImportSet(c *Ctx, r *R) {
 	}
 	if n == 0 {
 		r.undecided("target", "-", "no assignment path emits SETATTR")
+	}
+}
+
+// SCO-RHSFIRST: in a declaration the names being declared are not yet in scope in the
+// expressions that initialise them (`for _, x := range x`, `n := n + 1`, `const k = k0`): the
+// compile-case compiles the operand / right-hand side *before* it enters the names into the
+// local table.  Checked as an order of effects on every path of the declaring compile-cases.
+func ruleScoRhsFirst(c *Ctx, r *R) {
+	cs, err := c.compileSwitch()
+	if err != nil {
+		r.undecided("compile", "-", err.Error())
+		return
+	}
+	isDeclare := func(e Effect) bool {
+		if e.Kind != "call" || e.Value == nil {
+			return false
+		}
+		switch e.Value.Name {
+		case "compiler.Shadow":
+			return true
+		case "lookup.Shadow":
+			return len(e.Value.Args) > 0 && strings.HasSuffix(e.Value.Args[0].String(), ".Locals")
+		}
+		return false
+	}
+	isCompile := func(e Effect) bool {
+		return e.Kind == "call" && e.Value != nil && (e.Value.Name == "compiler.compile" || e.Value.Name == "compiler.compileAll")
+	}
+	n := 0
+	for _, label := range []string{"range", ":=", "const"} {
+		sc := cs.ByLabel[label]
+		if sc == nil {
+			r.undecided("rhs-first "+label, "-", "no compile-case")
+			continue
+		}
+		m := newLayMachine(c)
+		cl, err := m.runCase(cs, label)
+		if err != nil {
+			r.undecided("rhs-first "+label, c.Pos(sc.Clause), err.Error())
+			continue
+		}
+		var states []*State
+		for _, p := range cl.Paths {
+			states = append(states, p.St)
+		}
+		for _, it := range cl.Iters {
+			for _, ex := range it.Exits {
+				states = append(states, ex.St)
+			}
+		}
+		bad := ""
+		sawBoth := false
+		for _, st := range states {
+			firstDecl := -1
+			for i, e := range st.Eff {
+				if isDeclare(e) && firstDecl < 0 {
+					firstDecl = i
+				}
+				if isCompile(e) && firstDecl >= 0 {
+					// compiled after a declaration: only the loop body of range (role block) may be
+					role := ""
+					if p := childPath(e.Value); p != nil {
+						role = roleTable[label][strings.Join(p, "/")]
+					}
+					if role == "block" {
+						continue
+					}
+					if bad == "" {
+						bad = e.Value.String()
+					}
+				}
+				if isCompile(e) && firstDecl < 0 {
+					sawBoth = true
+				}
+			}
+		}
+		n++
+		r.check(bad == "" && sawBoth, "rhs-first "+label, c.Pos(sc.Clause), "operands are compiled before the declared names enter the scope",
+			"compile(\""+label+"\") compiles "+bad+" after it has declared the statement's variables: a name in that expression that equals a variable being declared binds to the new, still empty variable instead of the outer one — `for _, x := range x`, `for _, node := range node.Kids` or `n := n + 1` read nil / run zero times")
+	}
+	if n == 0 {
+		r.undecided("rhs-first", "-", "no declaring compile-case analysed")
 	}
 }
